@@ -296,9 +296,28 @@ def rule_rbf_extract(chk, prog, tree):
     # _exps = 0.5 / length_scale**2
     fn = er.anchor(prog, XE, "RBFEvaluator.__init__")[1]
     # the exponent array: the attribute __init__ computes from the kernel's length scale
+    # (directly, or through locals that hold the length scale: converted with np.asarray, broadcast with np.full)
+    ls_locals = set()
+    changed = True
+    while changed:
+        changed = False
+        for n in pf.walk_no_nested(fn):
+            if isinstance(n, ast.Assign) and len(n.targets) == 1 and isinstance(n.targets[0], ast.Name) \
+                    and n.targets[0].id not in ls_locals \
+                    and any((isinstance(x, ast.Attribute) and x.attr == "length_scale")
+                            or (isinstance(x, ast.Name) and x.id in ls_locals) for x in ast.walk(n.value)) \
+                    and isinstance(n.value, ast.Call) and pf.call_name(n.value) in (
+                        "np.asarray", "np.array", "np.full", "np.atleast_1d", "np.broadcast_to", "np.ascontiguousarray",
+                        "np.repeat", "np.tile"):
+                ls_locals.add(n.targets[0].id)
+                changed = True
+
+    def _is_ls(x):
+        return (isinstance(x, ast.Attribute) and x.attr == "length_scale") or (
+            isinstance(x, ast.Name) and x.id in ls_locals)
     stores = [n for n in pf.walk_no_nested(fn) if isinstance(n, ast.Assign) and len(n.targets) == 1
               and pf.is_self_attr(n.targets[0])
-              and any(isinstance(x, ast.Attribute) and x.attr == "length_scale" for x in ast.walk(n.value))
+              and any(_is_ls(x) for x in ast.walk(n.value))
               and not any(isinstance(x, ast.Call) and pf.call_name(x) == "len" for x in ast.walk(n.value))]
     if len(stores) != 1:
         raise core.AnalysisError("RBFEvaluator.__init__: expected exactly one attribute computed from length_scale")
@@ -361,10 +380,44 @@ def rule_rbf_extract(chk, prog, tree):
     v = stores[0].value
     while isinstance(v, ast.Call) and pf.call_name(v) in ("np.ascontiguousarray", "np.asarray", "np.array") and v.args:
         v = v.args[0]
-    lsc = [pf.src(n) for n in ast.walk(v) if isinstance(n, ast.Attribute) and n.attr == "length_scale"]
+    lsc = [pf.src(n) for n in ast.walk(v) if _is_ls(n)]
     if not lsc:
-        raise core.AnalysisError("self._exps is not computed from a length_scale: %s" % pf.src(v))
-    nz = en.Normaliser({lsc[0]: "L"})
+        raise core.AnalysisError("the exponent array is not computed from a length_scale: %s" % pf.src(v))
+    nz = en.Normaliser({x: "L" for x in lsc})
+    # one exponent per selected feature: the native kernel reads exps[j] for every j < nfeat (nfeat = columns of
+    # the control points = len(<selection index>)).  An anisotropic length scale is guarded by a raising length
+    # comparison; an isotropic (scalar / size-1) one -- sklearn's default -- must be broadcast to len(index).
+    if sel is not None:
+        iloc = None
+        for n in pf.walk_no_nested(fn):
+            if isinstance(n, ast.Assign) and any(pf.is_self_attr(t, sel) for t in n.targets):
+                nm = [x.id for x in ast.walk(n.value) if isinstance(x, ast.Name) and x.id != "np"]
+                iloc = nm[0] if nm else None
+        inst2 = "RBFEvaluator: the exponent array has one entry per selected feature"
+        if iloc is None:
+            raise core.AnalysisError("RBFEvaluator.__init__: local stored in self.%s not found" % sel)
+
+        def len_of_index(e):
+            return isinstance(e, ast.Call) and pf.call_name(e) == "len" and e.args and pf.src(e.args[0]) == iloc
+        broadcast = any(isinstance(n, ast.Assign) and isinstance(n.value, ast.Call)
+                        and pf.call_name(n.value) in ("np.full", "np.broadcast_to", "np.repeat", "np.tile")
+                        and any(len_of_index(x) for x in ast.walk(n.value))
+                        and any(_is_ls(x) for x in ast.walk(n.value))
+                        and isinstance(n.targets[0], ast.Name) and n.targets[0].id in ls_locals
+                        for n in pf.walk_no_nested(fn))
+        guard = any(isinstance(n, ast.If) and cfgm._raises(n.body)
+                    and any(len_of_index(x) for x in ast.walk(n.test))
+                    and any(isinstance(x, ast.Call) and pf.call_name(x) == "len" and x.args and _is_ls(x.args[0])
+                            for x in ast.walk(n.test))
+                    for n in pf.walk_no_nested(fn))
+        if broadcast:
+            chk.ok("rbf-extract", inst2, detail="broadcast to len(%s)%s" % (iloc, " + raising length guard" if guard else ""))
+        else:
+            chk.violation("rbf-extract", XE, "RBFEvaluator.__init__", pf.src(stores[0]), stores[0].lineno,
+                          "self.%s gets one entry per element of the kernel's length scale, but the native kernel reads "
+                          "exps[j] for every j < nfeat = len(%s): an isotropic (scalar or one-element) length scale -- "
+                          "sklearn's default -- is never broadcast to len(%s), so C reads past the end of the array"
+                          % (exps_attr, iloc, iloc), instance=inst2)
     inst = "RBFEvaluator exponent array == 1/2 * L**-2"
     try:
         nf = nz.expr(v)
@@ -631,8 +684,78 @@ def rule_dispatch(chk, prog):
                               % (cname, pf.src(cl.func), cl.func.attr), instance=inst)
         if not bad:
             chk.ok("dispatch-total", inst, detail="arm isinstance(%s, %s)" % (var, "/".join(names)))
-    # top-level split on the kernel type must reject everything else
+    # every admitted class must survive the branch that admits it and the ladder arm it takes
     top = [n for n in fn.body if isinstance(n, ast.If) and _isinstance_classes(n.test)]
+    if top:
+        t0 = top[0]
+        # repo-defined instance attributes: name -> classes whose methods store self.<name>
+        stored = {}
+        for m0, c0 in prog.all_classes():
+            for f0 in pf.methods(c0).values():
+                for x in pf.walk_no_nested(f0):
+                    if pf.is_self_attr(x) and isinstance(x.ctx, ast.Store):
+                        stored.setdefault(x.attr, set()).add(c0.name)
+
+        def has_attr(mod_, cls_, attr):
+            for m1, c1 in prog.mro(mod_, cls_):
+                if attr in pf.methods(c1) or attr in pf.class_attrs(c1) or c1.name in stored.get(attr, ()):
+                    return True
+            return False
+        branches = []
+        ic = _isinstance_classes(t0.test)
+        branches.append(("the branch `if %s`" % pf.src(t0.test)[:60], ic[1], t0.body, alias_closure(fn, var) | {ic[0]}))
+        for st in t0.orelse:
+            a_ = er.asserted_stmt(st) if isinstance(st, (ast.Assert, ast.If)) else None
+            ic2 = _isinstance_classes(a_) if a_ is not None else None
+            bound_here = {var} | {y.targets[0].id for st_ in t0.orelse for y in ast.walk(st_)
+                                  if isinstance(y, ast.Assign) and len(y.targets) == 1
+                                  and isinstance(y.targets[0], ast.Name)
+                                  and y.targets[0].id in alias_closure(fn, var)}
+            if ic2 and ic2[0] in bound_here:
+                branches.append(("the product branch (`%s`)" % pf.src(st)[:60], ic2[1], t0.orelse, alias_closure(fn, var)))
+        for label, names, body, dnames in branches:
+            for cn in names:
+                rc = prog.resolve_class(kn, cn) or prog.resolve_class(mt, cn)
+                if rc is None:
+                    continue
+                m1, c1 = rc
+                mro1 = [cc.name for _, cc in prog.mro(m1, c1)]
+                inst = "get_mapped_gp_evaluator_additive: an instance of %s survives %s" % (cn, label)
+                problem = None
+                # (i) attributes read on the dispatched kernel in the admitting branch
+                for st in body:
+                    for x in ast.walk(st):
+                        if isinstance(x, ast.Attribute) and isinstance(x.ctx, ast.Load) and isinstance(x.value, ast.Name) \
+                                and x.value.id in dnames and x.attr in stored and not has_attr(m1, c1, x.attr) \
+                                and not isinstance(pf.parent(x), ast.Call):
+                            problem = problem or (x, "`%s` is read, but %s (admitted by the isinstance test) has no "
+                                                     "attribute `%s`; only %s define it" % (
+                                                         pf.src(x), cn, x.attr, sorted(stored[x.attr])[:4]))
+                # (ii) asserts in the ladder arm that contradict what the admitting branch bound
+                arm = next(((nm2, b2) for _, nm2, b2 in arms if any(y in mro1 for y in nm2)), None)
+                if arm is not None:
+                    for st in arm[1]:
+                        a_ = er.asserted_stmt(st) if isinstance(st, (ast.Assert, ast.If)) else None
+                        if isinstance(a_, ast.Compare) and isinstance(a_.ops[0], ast.Is) and isinstance(a_.left, ast.Name) \
+                                and isinstance(a_.comparators[0], ast.Constant) and a_.comparators[0].value is None:
+                            al = alias_closure(fn, a_.left.id)
+                            for st2 in body:
+                                for y in ast.walk(st2):
+                                    if isinstance(y, ast.Assign) and len(y.targets) == 1 and isinstance(y.targets[0], ast.Name) \
+                                            and y.targets[0].id in al and not (
+                                                isinstance(y.value, ast.Constant) and y.value.value is None) \
+                                            and not isinstance(y.value, ast.Name):
+                                        problem = problem or (st, "the arm taken for %s asserts `%s`, but %s binds it "
+                                                                  "with `%s`: the assertion fails for every such kernel"
+                                                              % (cn, pf.src(a_), label, pf.src(y)))
+                if problem:
+                    node, why = problem
+                    chk.violation("dispatch-total", MT, "get_mapped_gp_evaluator_additive",
+                                  pf.src(node).splitlines()[0][:100], node.lineno,
+                                  "%s: a kernel class the function admits cannot be mapped" % why, instance=inst)
+                else:
+                    chk.ok("dispatch-total", inst)
+    # top-level split on the kernel type must reject everything else
     inst = "get_mapped_gp_evaluator_additive rejects other kernel types"
     if top and top[0].orelse and any(isinstance(s, ast.Raise) or _isinstance_classes(er.asserted_stmt(s))
                                      for s in top[0].orelse):
@@ -1446,9 +1569,9 @@ def mutants(tree):
                "        inv_scale = 1.0 / (2 * self.alpha * lscale**2)\n        return (1 + diff * diff * inv_scale) ** (-self.alpha)",
                "        inv_scale = 1.0 / (2 * self.alpha * lscale**2)\n        return (1 + diff * diff * inv_scale) ** (-1 - self.alpha)",
                expect="k0-factor"),
-        Mutant("RBFEvaluator exps: length_scale**2 -> length_scale", XE, "0.5 / kernel.length_scale**2",
-               "0.5 / kernel.length_scale", expect="rbf-extract"),
-        Mutant("RBFEvaluator exps: 0.5 -> 1.0", XE, "0.5 / kernel.length_scale**2", "1.0 / kernel.length_scale**2",
+        Mutant("RBFEvaluator exps: length_scale**2 -> length_scale", XE, "0.5 / length_scale**2)",
+               "0.5 / length_scale)", expect="rbf-extract"),
+        Mutant("RBFEvaluator exps: 0.5 -> 1.0", XE, "0.5 / length_scale**2)", "1.0 / length_scale**2)",
                expect="rbf-extract"),
         Mutant("RBFEvaluator scale only set for products", XE,
                "            assert isinstance(kernel, DiffRBF)\n            scale = 1.0\n        X1ctrl = np.asarray(X1ctrl)",
@@ -1456,8 +1579,8 @@ def mutants(tree):
         Mutant("simple mapper: inds only for subset kernels", MT,
                "    inds = np.arange(N)\n    if isinstance(rbf.k2, SubsetRBF):\n        inds = inds[rbf.k2.indexes]",
                "    if isinstance(rbf.k2, SubsetRBF):\n        inds = np.arange(N)[rbf.k2.indexes]", expect="rbf-extract"),
-        Mutant("k0 ladder serves only DiffARBFV2", MT, "    elif isinstance(arbf, DiffAdditiveMixin):\n        assert srbf is None",
-               "    elif isinstance(arbf, DiffARBFV2):\n        assert srbf is None", expect="dispatch-total"),
+        Mutant("k0 ladder serves only DiffARBFV2", MT, "    elif isinstance(arbf, DiffAdditiveMixin):\n        for i in range(D.shape[1]):",
+               "    elif isinstance(arbf, DiffARBFV2):\n        for i in range(D.shape[1]):", expect="dispatch-total"),
         Mutant("AddRQ loses get_k0_for_mapping", KN,
                "    def get_k0_for_mapping(self, X, Y, lscale):\n        diff = X[:, np.newaxis] - Y[np.newaxis, :]\n        inv_scale",
                "    def get_k0_for_mapping_(self, X, Y, lscale):\n        diff = X[:, np.newaxis] - Y[np.newaxis, :]\n        inv_scale",
@@ -1505,6 +1628,16 @@ def mutants(tree):
                expect="grid-extent"),
         Mutant("C kernel assigns instead of accumulating", MU_C_REL, "out[i] += tot;", "out[i] = tot;",
                expect="accumulate-c"),
+        Mutant("RBFEvaluator: isotropic length scale no longer broadcast to one exponent per feature", XE,
+               "            length_scale = np.full(len(indexes), length_scale.ravel()[0])\n", "            pass\n",
+               expect="rbf-extract"),
+        Mutant("additive mapper: plain additive kernels admitted but `.indexes` read unconditionally", MT,
+               "ainds = np.arange(N)[getattr(arbf, \"indexes\", slice(None))]", "ainds = np.arange(N)[arbf.indexes]",
+               expect="dispatch-total"),
+        Mutant("additive mapper: mixin arm asserts there is no SubsetRBF prefactor", MT,
+               "    elif isinstance(arbf, DiffAdditiveMixin):\n        for i in range(D.shape[1]):",
+               "    elif isinstance(arbf, DiffAdditiveMixin):\n        assert srbf is None\n        for i in range(D.shape[1]):",
+               expect="dispatch-total"),
         Mutant("mapper: scale shifted before the constant term is formed", MT, fn=_shift_scale_early,
                expect="scale-order"),
         Mutant("arbf_args: order-2 block uses the order-1 scale", KN,
